@@ -198,12 +198,15 @@ def build(tp: Template, cfg: Cfg) -> Built:
                         [(RL.scan_key(frames[name]), b.syms[name].rel) for name, _ in tp.sources],
                         str_len=str_len, collected=list(RL.COLLECTED),
                     )  # fmt: skip
+                    K.WIDE.update(on="wide" in tp.tags, side=[])
                     try:
                         b.rel[key] = sem.plan(plan)
                         b.status[key] = "ok"
                     except Unsupported as e:
                         b.status[key] = f"unsupported:{e}"
-                    b.side += sem.side
+                    finally:
+                        K.WIDE["on"] = False
+                    b.side += sem.side + K.WIDE["side"]
                     b.constructs |= sem.constructs
                     b.notes += sem.notes
                 except Exception as e:  # noqa: BLE001
@@ -235,6 +238,7 @@ def build(tp: Template, cfg: Cfg) -> Built:
                         kinds = RL.sqlite_result_kinds(tbl)
                         b.extras[key + ":result_kinds"] = kinds
                         runner = lambda: sem.run(sql, kinds)  # noqa: E731
+                    K.WIDE.update(on="wide" in tp.tags, side=[])
                     try:
                         b.rel[key] = runner()
                         b.status[key] = "ok"
@@ -242,7 +246,9 @@ def build(tp: Template, cfg: Cfg) -> Built:
                         b.status[key] = f"unsupported:{e}"
                     except ParseError as e:
                         b.status[key] = f"parse-error:{e}"
-                    b.side += sem.side
+                    finally:
+                        K.WIDE["on"] = False
+                    b.side += sem.side + K.WIDE["side"]
                     b.constructs |= sem.constructs
                     b.notes += sem.notes
                     b.flags |= getattr(sem, "flags", set())
